@@ -1,4 +1,307 @@
+/-
+  C15 — JSON, CSV and HDF5 outputs tell the same story and round-trip.
+
+  Theorems about the model `CTM/Model/Output.lean` (which mirrors
+  `utils/output_utils.py`, `cli/from_specified_markers.py`,
+  `taxonomy_tree.py: to_str / label_to_name / level_to_name`).  The tie to the
+  Python code is the correspondence suite `harness/props/c15.py`.
+-/
 import CTM.Model.Output
+import CTM.Lemmas.Output
+import CTM.Lemmas.OutputFmt
+
 namespace CTM.C15
-theorem placeholder_true : True := trivial
+open CTM.Output
+
+/-! ## sample values used by the non-vacuity examples -/
+
+/-- two levels (10 ⊃ 11), leaf level 11 with nodes 3, 4; node 3 has a name and
+an alias, level 10 has a readable name -/
+def sampleTree : Tree :=
+  { hierarchy := [10, 11],
+    levels := [(10, [(1, [3]), (2, [4])]), (11, [(3, [100, 101]), (4, [102])])],
+    nameMapper := some [(11, [(3, ⟨some 30, some 31⟩)])],
+    hierarchyMapper := some [(10, 20)] }
+
+def sampleRec (cid : Nat) (a b : NodeId) (runner : List NodeId) : Record :=
+  { cellId := cid,
+    levels := [
+      (10, { assignment := a, prob := .val 1, corr := .val (-1), agg := .val 1, direct := false,
+             runAsg := none, runProb := none, runCorr := none }),
+      (11, { assignment := b, prob := .val 3, corr := .nan, agg := .val 3, direct := true,
+             runAsg := some runner, runProb := some (runner.map (fun _ => .val 0)),
+             runCorr := some (runner.map (fun _ => .val 2)) })] }
+
+/-- two cells; level 10 inferred, level 11 directly assigned with 1 resp. 0
+runners-up out of 2 requested -/
+def sampleBlob : Blob :=
+  { tree := sampleTree, nRunners := 2,
+    results := [sampleRec 50 1 3 [4], sampleRec 51 2 4 []] }
+
+/-! ## HDF5 -/
+
+/-- *"Writing the result to HDF5 and reading it back reproduces every cell id,
+assignment, probability, correlation, runner-up list and directly-assigned
+flag of the JSON output."*
+
+For every output satisfying `OutInv` (≥ 1 cell; distinct level names; every
+record has exactly the levels of the hierarchy; each assignment and runner-up
+is a node of its level; numbers are not JSON `null`; on directly assigned
+levels the three runner-up lists are present with equal length ≤
+`n_runners_up`, on inferred levels they are absent; the flag is uniform per
+level), `blob_to_hdf5` succeeds and `hdf5_to_blob` returns exactly the blob:
+all fields of all records, in order.  No bound on cells, levels, nodes or
+runners-up. -/
+theorem h5_roundtrip (b : Blob) (hinv : outInv b = true) :
+    ∃ h, toH5 b = .ok h ∧ ofH5 h = .ok b :=
+  ofH5_toH5 b hinv
+
+example : outInv sampleBlob = true := by decide
+example : (toH5 sampleBlob).toOption.bind (fun h => (ofH5 h).toOption) = some sampleBlob := by
+  decide
+
+/-- field-wise reading of `h5_roundtrip`: the blob read back has the same
+cell ids in the same order and, for every cell and level, the same record
+(`assignment`, `bootstrapping_probability`, `avg_correlation`,
+`aggregate_probability`, `directly_assigned`, the three `runner_up_*` lists) -/
+theorem h5_roundtrip_fields (b : Blob) (hinv : outInv b = true) :
+    ∃ h b', toH5 b = .ok h ∧ ofH5 h = .ok b' ∧
+      b'.results.map (·.cellId) = b.results.map (·.cellId) ∧
+      b'.results.map (·.levels) = b.results.map (·.levels) ∧
+      b'.tree = b.tree ∧ b'.nRunners = b.nRunners := by
+  obtain ⟨h, h1, h2⟩ := ofH5_toH5 b hinv
+  exact ⟨h, b, h1, h2, rfl, rfl, rfl, rfl⟩
+
+example : ∃ r ∈ sampleBlob.results, ∃ e ∈ r.levels, e.2.runAsg = some [4] := by decide
+
+/-! ## CSV -/
+
+/-- *"The CSV output has one row per cell in query order whose label, name and
+alias columns are the JSON assignments translated through the taxonomy's name
+tables and whose confidence column is the JSON value to four decimals."*
+
+If every record has every level of the hierarchy, `blob_to_csv` succeeds and
+row `i` is, column by column, `cellSpec` of record `i`: `cell_id`; per level
+the assignment (`label`), `label_to_name(.., 'name')`, at the leaf level only
+`label_to_name(.., 'alias')`, and the number under the confidence key printed
+with `%.4f`; and the header is the same column keys with level names made
+readable. -/
+theorem csv_rows (t : Tree) (taint : List Lvl) (ck : ConfKey) (rs : List Record)
+    (h : ∀ r ∈ rs, ∀ l ∈ t.hierarchy, (r.levels.lookup l).isSome) :
+    csvRows t taint ck rs = .ok (rs.map (fun r => (csvKeys t).map (cellSpec t taint ck r))) ∧
+    csvColumns t = (csvKeys t).map (Option.map (fun (l, k) => (t.levelToName l, k))) :=
+  ⟨csvRows_eq t taint ck rs h, csvColumns_eq t⟩
+
+example : ∀ r ∈ sampleBlob.results, ∀ l ∈ sampleTree.hierarchy, (r.levels.lookup l).isSome := by
+  decide
+example : csvColumns sampleTree =
+    [none, some (20, .label), some (20, .name), some (20, .conf),
+     some (11, .label), some (11, .name), some (11, .alias), some (11, .conf)] := by
+  decide
+
+/-- one row per record, in the order of the records, each starting with the
+record's cell id -/
+theorem csv_one_row_per_record (t : Tree) (taint : List Lvl) (ck : ConfKey) (rs : List Record)
+    (h : ∀ r ∈ rs, ∀ l ∈ t.hierarchy, (r.levels.lookup l).isSome) :
+    ∃ rows, csvRows t taint ck rs = .ok rows ∧ rows.length = rs.length ∧
+      rows.map (·.head?) = rs.map (fun r => some (Cell.str r.cellId)) := by
+  refine ⟨_, csvRows_eq t taint ck rs h, by simp, ?_⟩
+  simp [csvKeys, cellSpec, Function.comp_def]
+
+/-- the label column is the JSON assignment; the name and alias columns are
+the look-ups in `name_mapper`, which default to the label when the table, the
+level, the node or the key is missing -/
+theorem csv_label_name_alias (t : Tree) (taint : List Lvl) (ck : ConfKey) (r : Record)
+    (l : Lvl) (lr : LevelRec) (h : r.levels.lookup l = some lr) :
+    cellSpec t taint ck r (some (l, .label)) = .str lr.assignment ∧
+    cellSpec t taint ck r (some (l, .name)) = .str (t.labelToName l lr.assignment .name) ∧
+    cellSpec t taint ck r (some (l, .alias)) = .str (t.labelToName l lr.assignment .alias) ∧
+    (t.nameMapper = none → t.labelToName l lr.assignment .name = lr.assignment ∧
+      t.labelToName l lr.assignment .alias = lr.assignment) := by
+  refine ⟨by simp [cellSpec, h], by simp [cellSpec, h], by simp [cellSpec, h], ?_⟩
+  intro hn
+  simp [Tree.labelToName, hn]
+
+example : sampleTree.labelToName 11 3 .name = 30 ∧ sampleTree.labelToName 11 3 .alias = 31 ∧
+    sampleTree.labelToName 11 4 .name = 4 ∧ sampleTree.labelToName 10 1 .name = 1 := by decide
+
+/-- the alias column exists at the leaf level only -/
+theorem csv_alias_leaf_only (t : Tree) (l : Lvl) :
+    some (l, ColKind.alias) ∈ levelKeys t l ↔ some l = t.leafLevel := by
+  by_cases h : some l = t.leafLevel <;> simp [levelKeys, h]
+
+/-- *"… whose confidence column is the JSON value to four decimals
+(bootstrapping probability, or correlation when a single iteration was
+run)"*: when no readable level name contains `label` / `name` / `alias` /
+`assignment` (`taint = []`), the confidence field of level `l` is
+`'%.4f' %` the finite JSON number stored under `bootstrapping_probability`
+(`bootstrap_iteration ≠ 1`) or `avg_correlation` (`bootstrap_iteration = 1`). -/
+theorem csv_confidence (t : Tree) (iters : Nat) (r : Record) (l : Lvl) (lr : LevelRec)
+    (h : r.levels.lookup l = some lr) :
+    (iters ≠ 1 → ∀ q, lr.prob = .val q →
+      cellSpec t [] (confidenceKey iters) r (some (l, .conf)) = .fixed4 (fmt4 q)) ∧
+    (iters = 1 → ∀ q, lr.corr = .val q →
+      cellSpec t [] (confidenceKey iters) r (some (l, .conf)) = .fixed4 (fmt4 q)) := by
+  constructor
+  · intro hi q hq
+    simp [cellSpec, h, confidenceKey, hi, LevelRec.conf, hq, confCell]
+  · intro hi q hq
+    simp [cellSpec, h, confidenceKey, hi, LevelRec.conf, hq, confCell]
+
+example : cellSpec sampleTree [] (confidenceKey 1) (sampleRec 50 1 3 [4]) (some (10, .conf))
+    = .fixed4 (-1) := by decide +kernel
+
+/-- the code as it is: in a level whose readable name contains `label`,
+`name`, `alias` or `assignment` the confidence is *not* printed with `%.4f`
+(pandas does not apply `float_format` to the categorical column) — the
+hypothesis `taint = []` of `csv_confidence` cannot be dropped -/
+theorem csv_confidence_tainted (t : Tree) (taint : List Lvl) (ck : ConfKey) (r : Record)
+    (l : Lvl) (lr : LevelRec) (q : Rat) (h : r.levels.lookup l = some lr)
+    (hq : lr.conf ck = .val q) (ht : l ∈ taint) :
+    cellSpec t taint ck r (some (l, .conf)) = .raw q := by
+  simp [cellSpec, h, hq, confCell, ht]
+
+/-- *"… preceded by comment lines naming the JSON file, the hierarchy …"*:
+the comment block carries the metadata file name and the hierarchy; the
+readable hierarchy line is present exactly when some level has a different
+readable name, and then lists the readable names -/
+theorem csv_comments (t : Tree) (m : Option StrId) (f : Option Bool) :
+    (csvComments t m f).metadata = m ∧
+    (csvComments t m f).hierarchy = t.hierarchy ∧
+    (csvComments t m f).algorithmIsCorrelation = f ∧
+    ((csvComments t m f).readable = none ↔ t.hierarchy.map t.levelToName = t.hierarchy) ∧
+    (∀ r, (csvComments t m f).readable = some r → r = t.hierarchy.map t.levelToName) := by
+  refine ⟨rfl, rfl, rfl, ?_, ?_⟩
+  · by_cases h : t.hierarchy.map t.levelToName = t.hierarchy <;> simp [csvComments, h]
+  · intro r hr
+    by_cases h : t.hierarchy.map t.levelToName = t.hierarchy
+    · simp [csvComments, h] at hr
+    · simp only [csvComments, ne_eq, h, not_false_eq_true, if_true, Option.some.injEq] at hr
+      exact hr.symm
+
+example : (csvComments sampleTree (some 7) (some false)).readable = some [20, 11] := by decide
+
+/-! ## `%.4f` -/
+
+/-- `'%.4f'` prints a multiple of 10⁻⁴ -/
+theorem fmt4_grid (x : Rat) : ∃ n : Int, fmt4 x = (n : Rat) / 10000 :=
+  ⟨roundHalfEven (x * 10000), rfl⟩
+
+/-- *"to four decimals"*: the printed value differs from the exact binary
+value by at most half a unit of the fourth decimal -/
+theorem fmt4_error (x : Rat) : |fmt4 x - x| ≤ 1 / 20000 := by
+  have h := rhe_error (x * 10000)
+  unfold fmt4
+  rw [abs_le]
+  constructor <;> linarith [h.1, h.2]
+
+/-- no four-decimal number is closer to `x` than the one printed -/
+theorem fmt4_nearest (x : Rat) (n : Int) : |fmt4 x - x| ≤ |(n : Rat) / 10000 - x| := by
+  have h := rhe_nearest (x * 10000) n
+  have e1 : fmt4 x - x = (((roundHalfEven (x * 10000) : Int) : Rat) - x * 10000) / 10000 := by
+    unfold fmt4; ring
+  have e2 : (n : Rat) / 10000 - x = ((n : Rat) - x * 10000) / 10000 := by ring
+  rw [e1, e2, abs_div, abs_div]
+  exact div_le_div_of_nonneg_right h (abs_nonneg _)
+
+/-- printing is monotone: a larger confidence never prints smaller -/
+theorem fmt4_mono {x y : Rat} (h : x ≤ y) : fmt4 x ≤ fmt4 y := by
+  have h1 : x * 10000 ≤ y * 10000 := by linarith
+  have h2 := rhe_mono h1
+  have h3 : ((roundHalfEven (x * 10000) : Int) : Rat) ≤ ((roundHalfEven (y * 10000) : Int) : Rat) := by
+    exact_mod_cast h2
+  unfold fmt4
+  exact div_le_div_of_nonneg_right h3 (by norm_num)
+
+/-- a number that already has four decimals is printed unchanged; printing is
+idempotent -/
+theorem fmt4_exact (n : Int) : fmt4 ((n : Rat) / 10000) = (n : Rat) / 10000 := by
+  unfold fmt4
+  have : (n : Rat) / 10000 * 10000 = (n : Rat) := by ring
+  rw [this, rhe_intCast]
+
+theorem fmt4_idem (x : Rat) : fmt4 (fmt4 x) = fmt4 x := by
+  obtain ⟨n, hn⟩ := fmt4_grid x
+  rw [hn, fmt4_exact]
+
+/-- ties go to the even digit: if the exact value is `k·10⁻⁴ + ½·10⁻⁴` the
+printed value is `k·10⁻⁴` or `(k+1)·10⁻⁴`, whichever has an even last digit
+(`0.03125 ↦ 0.0312`, `0.09375 ↦ 0.0938`) -/
+theorem fmt4_tie_even (x : Rat) (k : Int) (h : x * 10000 = (k : Rat) + 1 / 2) :
+    ∃ n : Int, fmt4 x = (n : Rat) / 10000 ∧ n % 2 = 0 ∧ (n = k ∨ n = k + 1) :=
+  ⟨roundHalfEven (x * 10000), rfl, rhe_tie_even _ k h⟩
+
+example : fmt4 (1 / 32) = 312 / 10000 ∧ fmt4 (3 / 32) = 938 / 10000 := by decide +kernel
+example : fmt4Str (1 / 32) = "0.0312" ∧ fmt4Str (-1 / 100000) = "-0.0000" := by decide +kernel
+
+/-! ## the embedded taxonomy -/
+
+/-- *"The taxonomy embedded in the output reconstructs the input taxonomy
+without its cell lists"*: whatever `drop_level` / `flatten` say, the embedded
+tree is the input tree with every leaf's cell list emptied — same hierarchy,
+same name tables, same nodes (in the same order) at every level, same children
+at every non-leaf level, `[]` under every leaf -/
+theorem tree_embedded (t : Tree) (dropLevel : Option Lvl) (flatten : Bool) :
+    let e := embeddedTree t dropLevel flatten
+    e = t.dropCells ∧
+    e.hierarchy = t.hierarchy ∧ e.nameMapper = t.nameMapper ∧
+    e.hierarchyMapper = t.hierarchyMapper ∧
+    (∀ l, e.nodesAt l = t.nodesAt l) ∧
+    (∀ l, some l ≠ t.leafLevel → e.levels.lookup l = t.levels.lookup l) ∧
+    (∀ l m, some l = t.leafLevel → e.levels.lookup l = some m →
+      ∀ nv ∈ m, nv.2 = []) := by
+  refine ⟨rfl, rfl, rfl, rfl, dropCells_nodesAt t, ?_, ?_⟩
+  · intro l hl
+    show t.dropCells.levels.lookup l = _
+    rw [dropCells_lookup]
+    cases t.levels.lookup l <;> simp [dropLevelCells, hl]
+  · intro l m hl hm nv hnv
+    have : t.dropCells.levels.lookup l = some m := hm
+    rw [dropCells_lookup] at this
+    cases hx : t.levels.lookup l with
+    | none => simp [hx] at this
+    | some m0 =>
+      simp only [hx, Option.map_some, dropLevelCells, hl, if_true, Option.some.injEq] at this
+      subst this
+      obtain ⟨x, _, rfl⟩ := List.mem_map.mp hnv
+      rfl
+
+example : (embeddedTree sampleTree (some 10) true).levels =
+    [(10, [(1, [3]), (2, [4])]), (11, [(3, []), (4, [])])] := by decide
+
+/-- the node ↔ integer tables of the HDF5 file and the CSV name look-ups are
+the same whether they are computed from the embedded tree or from the input
+tree (they never look at cell lists) -/
+theorem tree_embedded_lookups (t : Tree) (l : Lvl) (n : NodeId) (k : NameKey) :
+    t.dropCells.nodesAt l = t.nodesAt l ∧
+    t.dropCells.labelToName l n k = t.labelToName l n k ∧
+    t.dropCells.levelToName l = t.levelToName l ∧
+    t.dropCells.leafLevel = t.leafLevel :=
+  ⟨dropCells_nodesAt t l, rfl, rfl, rfl⟩
+
+/-- dropping the cells twice is dropping them once -/
+theorem dropCells_idem (t : Tree) : t.dropCells.dropCells = t.dropCells := by
+  have hl : t.dropCells.leafLevel = t.leafLevel := rfl
+  cases t with
+  | mk hier levels nm hm =>
+    simp only [Tree.dropCells, Tree.leafLevel, List.map_map, Tree.mk.injEq, and_true, true_and]
+    apply List.map_congr_left
+    intro kv _
+    obtain ⟨k, v⟩ := kv
+    by_cases h : some k = hier.getLast? <;> simp [Function.comp_def, h]
+
+/-! ## cells in query order -/
+
+/-- *"one row per cell in query order"*: `re_order_blob` returns, for every
+cell id of the query file in turn, a record of the results with that id — so
+the JSON records (and with `csv_one_row_per_record` the CSV rows) are in query
+order, one per query cell -/
+theorem reorder_query_order (rs : List Record) (order : List StrId)
+    (h : ∀ c ∈ order, c ∈ rs.map (·.cellId)) :
+    ∃ rs', reorder rs order = .ok rs' ∧ rs'.map (·.cellId) = order ∧ ∀ r ∈ rs', r ∈ rs :=
+  reorder_ok rs order h
+
+example : ∃ rs', reorder sampleBlob.results [51, 50] = .ok rs' ∧ rs'.map (·.cellId) = [51, 50] :=
+  ⟨_, rfl, rfl⟩
+
 end CTM.C15
